@@ -57,7 +57,7 @@ KINDS3 = [k + "3" for k in KINDS2]
 KINDS_NAMED = ["prefix_named", "prefix_rejected", "unit_named", "unit_rejected", "dim_named", "dim_rejected"]
 # nested expressions (the inner operand is itself a first-time construction and is used at once),
 # and two threads that define two *different* new units which are multiplied afterwards
-KINDS_NESTED = ["unit_pow_mul", "unit_pow_mul3", "two_defines", "unit_parsed", "unit_parsed3"]
+KINDS_NESTED = ["unit_pow_mul", "unit_pow_mul3", "two_defines", "unit_parsed", "unit_parsed3", "prefix_decimal", "prefix_decimal3"]
 KINDS = KINDS2 + KINDS3 + KINDS_NAMED + KINDS_NESTED
 # exhaustively enumerated sub-space: (kind, class whose __new__ window lines are decision points)
 ENUM = [
@@ -206,6 +206,27 @@ class Plan:
             if three:
                 add(f"Prefix(7,{n+1})/Prefix(7,1)", lambda: c / b)
             self.prefix_key = (7, n)
+        elif base == "prefix_decimal":
+            # a prefix whose exponent is a fractional Decimal of many digits, evaluated by threads
+            # whose decimal contexts differ (the context is per thread: one works to 6 digits, one
+            # to 3, one with the default): what a prefix IS does not depend on the caller's context
+            import decimal
+
+            self.target = "Prefix"
+            D = decimal.Decimal(n) + decimal.Decimal("0.7182818284")
+
+            def under(prec):
+                def thunk():
+                    with decimal.localcontext() as ctx:
+                        ctx.prec = prec
+                        return Prefix(11, D)
+                return thunk
+
+            add(f"Prefix(11,Decimal('{D}'))", lambda: Prefix(11, D))
+            add(f"Prefix(11,Decimal('{D}')) under prec=6", under(6))
+            if three:
+                add(f"Prefix(11,Decimal('{D}')) under prec=3", under(3))
+            self.prefix_key = (11, D)  # a base of its own: whatever a broken tree makes of D cannot pre-empt another case's fresh (7, n)
         elif base == "prefixed_unit_pow":
             self.target = "Unit"
             km = Kilo * Meter
